@@ -12,16 +12,24 @@ CASE_START = ("m", "layout")
 MANIFEST = dict(
     text="Lean 4 theorems over a fault-explicit, code-shaped model of every matches_response (EthernetII, Dot3, Dot1Q, IP, "
          "IPv6 with the extension-header walk, TCP, UDP, ICMP, ICMPv6, DNS, BootP/DHCP, DHCPv6, RadioTap, Loopback, ARP, "
-         "RawPDU, PDU default, PDUCacher): no read outside the buffer for any stack and any buffer; the model refines a "
-         "byte-level specification of 'mirrored reply / stranger' for every buffer; the mirrored reply is accepted and a "
-         "packet differing in a matched field is rejected.  Tied to the code by differential correspondence on the real "
-         "objects (requests built through the public API and serialised; replies = libtins-serialised mirrors, single-field "
-         "perturbations, truncations to every length, option / extension-header variants, ICMP errors, random bytes; the "
-         "buffer is an exact-size heap block under ASan/UBSan) and by the spec oracle evaluated on the implementation's output.",
+         "RawPDU, PDU default (SLL, LLC, ...), PDUCacher): no read outside the buffer for any stack and any buffer; the model "
+         "refines a byte-level specification of 'mirrored reply / stranger' for every buffer and every request over "
+         "{Ethernet II, 802.3, 802.1Q nested any number of times, loopback, RadioTap} / {IPv4, IPv6} / {TCP, UDP + payload, "
+         "DNS, BootP/DHCP, DHCPv6, ICMP echo/timestamp/mask, ICMPv6 echo} and ARP; every mirrored reply is accepted whatever "
+         "its unmatched fields, IPv4/TCP option lists, chain of IPv6 hop-by-hop/routing/first-fragment/destination-options/"
+         "mobility headers, TCP flags and payload are (mirrored_reply_accepted); an ICMP destination unreachable quoting the "
+         "request's IPv4 header is accepted (unreachable_quoting_accepted); a packet differing in a matched field is rejected "
+         "(stranger_rejected).  Tied to the code by differential correspondence on the real objects (requests built through "
+         "the public API and serialised; replies = libtins-serialised mirrors, every matched field perturbed octet by octet "
+         "and replaced by boundary values, truncations to every length, option / extension-header chains and the edges of the "
+         "walk, ICMP errors, random bytes; the buffer is an exact-size heap block under ASan/UBSan) and by the spec oracle "
+         "evaluated on the implementation's output.",
     note="Trusted: Lean kernel + standard axioms; hand-written model tied by correspondence (harness/c14_match.cpp); "
          "header sizes / constants compared with the tree by the `layout` op; little-endian bit-field branch only; "
-         "generator coverage bounds what the tie sees.",
-    technique="Lean 4 proof (structural induction over the layer stack, refinement of a byte-level spec) + model/impl correspondence",
+         "generator coverage bounds what the tie sees.  Not matched by the code and therefore not by the specification: "
+         "BootP opcode, ARP opcode, next-protocol tags, the loopback family word in front of an inner PDU.",
+    technique="Lean 4 proof (structural induction over the layer stack, refinement of a byte-level spec, serialisation lemmas "
+              "for arbitrary option lists / extension-header chains) + model/impl correspondence",
     design="DESIGN.md §6 C14")
 
 
@@ -704,31 +712,51 @@ def run(chk):
         if not found:
             chk.violation("proof obligation no longer checks: " + p[:1500], ["theorem-or-audit-failure", p[:4000]], nofail=True)
     chk.cov["rule"] = ("one evaluation = one matches_response(ptr,len) call on a request object built through the public API and "
-                       "serialised; replies: libtins-serialised mirror, request itself, single/double field perturbations, truncations, "
-                       "IP/TCP option and IPv6 extension-header variants, ICMP errors quoting the request, other requests' mirrors, "
-                       "random bytes of every length 0..128 for every class; distinct_nontrivial = distinct (op, result) pairs")
+                       "serialised; replies: libtins-serialised mirror, request itself, every matched field perturbed octet by octet and "
+                       "replaced by boundary values (broadcast / multicast / unspecified addresses, class-D look-alikes in either byte "
+                       "order, ff02::1, ports 0 and 65535), single/double field perturbations, TCP flag variants, truncations, IP/TCP "
+                       "option variants, well-formed IPv6 extension-header chains + a matched field perturbed behind them + the edges "
+                       "of the walk, malformed chains, ICMP errors quoting the request, other requests' mirrors, random bytes and the "
+                       "(padded) mirror at every length 0..max(128, header+8) for every class, every length 0..|reply|+8 for one "
+                       "stack of every newly specified shape; distinct_nontrivial = distinct (op, result) pairs")
     chk.assumptions += [
         "little-endian bit-field branch of the headers (this platform); big-endian #if branches are not modelled",
         "total_sz passed to the matcher equals the real size of the buffer (what PacketSender::recv_match_loop passes)",
         "the request object is in its post-serialisation state (PacketSender sends before it matches); IP header_ is "
         "taken from the libtins serialisation of the request and given to the model",
-        "ICMP destination-unreachable quoting exactly the request's IPv4 header is outside the mirrored-reply relation "
-        "(specification: unspecified; libtins accepts it by design)",
         "matched fields of the specification: reply destination = request source (not matched when the request's IPv4 source is "
         "0.0.0.0), reply source = request destination unless that is a group address (Ethernet group bit, IPv4 255.255.255.255 or "
-        "224/4, IPv6 ff00::/8), both ports, ICMP/ICMPv6 reply type + identifier + sequence, DNS id, VLAN id",
-        "IPv6 replies with extension headers are outside the specification's accept/reject clauses (model + noFault + correspondence only)",
+        "224/4, IPv6 ff00::/8), both ports, ICMP/ICMPv6 reply type + identifier + sequence, DNS id, VLAN id, BootP/DHCP xid, DHCPv6 "
+        "transaction id + 'the reply is not a relay message', ARP sender/target protocol address.  A reply whose source differs "
+        "from a *group* destination is neither demanded nor forbidden (the code accepts it for the Ethernet group bit, "
+        "255.255.255.255 and ff02::/16 only)",
+        "not matched by libtins and therefore unmatched in the specification: BootP opcode, ARP opcode, TCP flags, every "
+        "next-protocol tag (a reply of another protocol / EtherType / loopback family is `unspecified`, not `reject`)",
+        "second kind of accepted reply: IPv4 / ICMP type 3 (any code) whose octets 8..27 equal the request's 20-byte header as "
+        "serialised — from any source to any destination, whatever follows; ICMP errors of other types, and ICMPv6 errors, have "
+        "no accept clause",
+        "IPv6 chains the specification follows: any sequence of hop-by-hop (0), routing (43), fragment (44), destination options "
+        "(60), mobility (135) headers, each whole and followed by at least one octet.  Restrictions taken from RFC 8200 §4.5 for "
+        "what a conforming peer sends: a fragment header has its reserved octet zero and offset 0 (first fragment).  Observed on "
+        "the code, outside the relation: IPv6::matches_response (like the IPv6 parser) takes the reserved octet of a fragment "
+        "header for a length, so a reply with a non-zero reserved octet is not followed; a reply that ends exactly with an "
+        "extension header is not followed (loop condition total_sz > 8); no-next-header (59) is walked like an extension header; "
+        "AH (51), ESP (50), HIP, shim6 are not walked.  These inputs are `unspecified` and compared model-vs-code only",
+        "DHCPv6 relay-forward / relay-reply *requests* have no clause (libtins never matches them: dhcpv6_matches_iff); "
+        "SLL has no matcher and cannot be sent (PDU default: rawpdu_and_default)",
     ]
     chk.trusted += ["correspondence harness harness/c14_match.cpp + generators in checks/C14.py",
                     "header sizes and protocol constants: `layout` op compares the tree's sizeof()/enums with the model's constants",
                     "g++ 12 / ASan+UBSan build of the repo's working tree; exact-size malloc block per reply buffer"]
-    chk.extra["modelled_not_proved"] = ["BootP/DHCP, DHCPv6, ARP, Loopback, RawPDU, PDU default, PDUCacher: matcher_noFault + closed-form "
-                                        "theorems + correspondence; they have no clause in the mirrored-reply specification (oracle: unspecified)",
-                                        "IPv6 replies carrying extension headers: extension walk modelled, fault-freedom and fuel bound proved, "
-                                        "correspondence on generated chains; the specification's accept/reject clauses cover replies without "
-                                        "extension headers only",
-                                        "Dot3 / RadioTap requests: refinement of the byte-level specification proved, not part of mirror_accepted's "
-                                        "request grammar"]
+    chk.extra["modelled_not_proved"] = [
+        "RawPDU, PDU default (SLL, LLC, Dot11, ...), PDUCacher, DHCPv6 relay requests, ICMPv6 router/neighbour solicitation: "
+        "matcher_noFault + closed-form theorems + correspondence; no clause in the mirrored-reply relation (oracle: unspecified)",
+        "IPv6 replies whose chain contains AH / ESP / no-next-header / a non-first or reserved-octet-set fragment header, or that "
+        "end with an extension header: walk modelled, fault-freedom and fuel bound proved, correspondence on generated chains; "
+        "the relation has no clause for them",
+        "replies of another protocol than the request's (cross-protocol confusion: no matcher compares a next-protocol tag) and "
+        "replies from a unicast source to a multicast (non-broadcast) request: model + correspondence only",
+    ]
     corr.finalize_cov(chk)
 
 
